@@ -89,6 +89,29 @@ theorem pinned_xz_accepts_preset :
     pinned { dict := 65536, lc := 3, lp := 0, pb := 2, nice := 32 } [] 1000 = true ∧
     xzValidate { dict := 65536, lc := 3, lp := 0, pb := 2, nice := 32 } [] 1000 = false := by decide
 
+/-- whatever `LZMAWriter::new` accepts can be terminated by its reader: a `.lzma` header carries the size or the stream
+    carries the end marker (for raw streams the size is the caller's business, as in 7z); and a preset dictionary is never
+    combined with a header, which has no field for it.  The write / finish side of a declared size is C18's
+    (`Split.expectedRun`); the payload round trip is C01's (`lzma_roundtrip_size`, `lzma_roundtrip_marker`). -/
+theorem lzma_new_accepted_is_terminable (o : LzOptions) (useHeader useEndMarker expectedKnown hasPreset : Bool)
+    (h : lzmaWriterNew o useHeader useEndMarker expectedKnown hasPreset = .ok) :
+    validate o false = true ∧ (useHeader = true → useEndMarker = true ∨ expectedKnown = true) ∧
+    (useHeader = true → hasPreset = false) := by
+  unfold lzmaWriterNew at h
+  cases hv : validate o false <;> simp only [hv] at h
+  · simp at h
+  · cases useHeader <;> cases useEndMarker <;> cases expectedKnown <;> cases hasPreset <;> simp_all
+
+/-- the pinned constructor had no such clause: header + no marker + unknown size was accepted (witness; replayed on the
+    real code by the `lzma_new` grid of the C19 engine) -/
+theorem pinned_lzma_new_accepts_unterminated :
+    let pinned := fun (o : LzOptions) (useHeader _useEndMarker _expectedKnown hasPreset : Bool) =>
+      if validate o false = false then NewRes.invalid else if hasPreset && useHeader then .unsupported else .ok
+    pinned { dict := 65536, lc := 3, lp := 0, pb := 2, nice := 32 } true false false false = .ok ∧
+    lzmaWriterNew { dict := 65536, lc := 3, lp := 0, pb := 2, nice := 32 } true false false false = .invalid := by decide
+
+example : lzmaWriterNew { dict := 65536, lc := 3, lp := 0, pb := 2, nice := 32 } true false true false = .ok := by decide
+
 example : xzValidate { dict := 65536, lc := 3, lp := 0, pb := 2, nice := 32 } [(3, 1), (4, 0)] 0 = true := by decide
 
 example : validate { dict := 8388608, lc := 3, lp := 0, pb := 2, nice := 64 } true = true ∧
